@@ -178,11 +178,13 @@ def aliasKey (buf : Bytes) : Option KeyEvent :=
         if !ds.isEmpty ∧ ds.all isDigitB then (parseU8 ds).map (fun n => ⟨.f n, mods⟩) else none
       | _ => none
 
-/-- Returns the key and the bytes left after the closing `>` (or nothing left if there is none). -/
+/-- Returns the key and the bytes left after the closing `>`. Without a closing `>` there is no alias
+(since fix: before, `<x` at the end of the input was read as `<x>`). -/
 def parseByteAlias (bs : Bytes) : Option (KeyEvent × Bytes) :=
   let buf := bs.takeWhile notGt
   let rest := (bs.dropWhile notGt).drop 1
-  (aliasKey buf).map (fun k => (k, rest))
+  if (bs.dropWhile notGt).isEmpty then none
+  else (aliasKey buf).map (fun k => (k, rest))
 
 /-! ### `read_key` (reader.rs:215) -/
 
